@@ -1137,6 +1137,11 @@ class Interp:
         if isinstance(v, VExc):
             if attr in v.fields:
                 return v.fields[attr]
+            if v.exact and v.cls.__module__ == "builtins" and not hasattr(v.cls, attr) \
+                    and not self.st.spec:
+                # a freshly built built-in exception has no other attributes
+                self.note_safe("SAFE-Attr", _src(node), getattr(node, "lineno", 0))
+                self.throw(AttributeError, node, "SAFE-Attr")
             return VOpaque(f"exc.{attr}")
         if isinstance(v, VOpaque) and hasattr(v, "encoded"):
             return VFunc(None, recv=v, builtin=f"opaque.{attr}", name=attr)
@@ -1554,6 +1559,9 @@ class Interp:
                 m_caller = self.as_int(self.spec_value_in(c.decreases, self.entry_env, ref), node)
                 self.oblige("VARIANT", f"recursive call decreases {c.decreases}",
                             z3.And(m_callee >= 0, m_callee < m_caller), getattr(node, "lineno", 0))
+        if not st.spec and self.depth == 0 and self.contract is not None and self.contract.call_pre \
+                and isinstance(node, ast.Call):
+            self.check_call_pre(ref, env, node)
         if not st.spec and self.depth == 0 and self.contract is not None and self.contract.rely:
             rl = self.contract.rely.get(ref.short)
             if rl is not None:
@@ -1565,6 +1573,38 @@ class Interp:
             return self._call_by_contract2(ref, c, env, old, node)
         finally:
             self.live_olds.pop()
+
+    def check_call_pre(self, ref, env, node):
+        """Call-site assertions of the function under proof: which arguments go to which call."""
+        name = ref.short.split(".")[-1]
+        if name == "__init__" and ref.cls is not None:
+            name = ref.cls.__name__      # a constructor call is written with the class name
+        if not any(k.split("#")[0] == name for k in self.contract.call_pre):
+            return
+        sites = getattr(self, "_call_sites", None)
+        if sites is None:
+            sites = self._call_sites = {}
+        if name not in sites:
+            calls = [n for n in ast.walk(self.fnref.node) if isinstance(n, ast.Call) and (
+                (isinstance(n.func, ast.Name) and n.func.id == name)
+                or (isinstance(n.func, ast.Attribute) and n.func.attr == name))]
+            calls.sort(key=lambda n: (n.lineno, n.col_offset))
+            sites[name] = calls
+        k = next((i + 1 for i, n in enumerate(sites[name])
+                  if n.lineno == node.lineno and n.col_offset == node.col_offset), None)
+        clauses = self.contract.call_pre.get(f"{name}#{k}")
+        if clauses is None:
+            # a call of this callee that the contract does not know
+            self.oblige("CALL", f"{name}: call site #{k} has no assertion", z3.BoolVal(False),
+                        node.lineno)
+            return
+        env2 = dict(self.st.env)
+        env2.update({"arg_" + p: v for p, v in env.items()})
+        # entry_<param>: the value a (possibly rebound) parameter had on entry
+        env2.update({"entry_" + p: v for p, v in (self.entry_env or {}).items()})
+        fr = self.frames[-1].get("ref") or self.fnref
+        for clause in clauses:
+            self.oblige("CALL", f"{name}#{k}: {clause}", self.spec_eval(clause, env2, fr), node.lineno)
 
     def apply_rely(self, ref, rl, node):
         """Callback reasoning (rely/guarantee, cut like a loop): the callee may run the local
@@ -1853,6 +1893,10 @@ class Interp:
 
     def exec(self, node):
         c = self.contract
+        if c is not None and c.havoc_stmts and self.depth == 0 and isinstance(node, ast.Expr) \
+                and _src(node) in c.havoc_stmts:
+            self.assumptions.add(f"statement skipped (assumed not to raise): {_src(node)}")
+            return None
         if c is not None and c.havoc_stmts and self.depth == 0 and isinstance(
                 node, (ast.Assign, ast.AnnAssign)):
             if _src(node) in c.havoc_stmts:
@@ -2335,6 +2379,19 @@ class Interp:
                     return
                 except _Continue:
                     fell_through = False
+                except _Return as r:
+                    if lc and lc.get("return_post") and self.depth == 0:
+                        # assertions about a `return` taken from inside this loop's body
+                        for clause in lc["return_post"]:
+                            try:
+                                g = self.spec_eval(clause, self.st.env, ref,
+                                                   extra={"_i": VInt(i), "result": r.val})
+                            except Unsupported as e:
+                                if "unknown name" in str(e):
+                                    continue
+                                raise
+                            self.oblige("RET-IN-LOOP", f"loop {ordinal}: {clause}", g, self.cur_line)
+                    raise
                 if fell_through and lc and lc.get("step_post"):
                     for clause in lc["step_post"]:
                         try:
@@ -2344,6 +2401,16 @@ class Interp:
                                 continue   # mentions a local that is not bound on this path
                             raise
                         self.oblige("STEP", f"loop {ordinal}: {clause}", g, self.cur_line)
+                if lc and lc.get("iter_post"):
+                    # end-of-iteration assertions that also hold on `continue` paths
+                    for clause in lc["iter_post"]:
+                        try:
+                            g = self.spec_eval(clause, self.st.env, ref, extra={"_i": VInt(i)})
+                        except Unsupported as e:
+                            if "unknown name" in str(e):
+                                continue
+                            raise
+                        self.oblige("ITER", f"loop {ordinal}: {clause}", g, self.cur_line)
             finally:
                 self.iter_snaps.pop()
             self.check_invariants(lc, "INV-PRES", ordinal, ref, extra={"_i": VInt(i + 1)})
